@@ -11,7 +11,7 @@ from checks import parsegen
 from checks import probe_common as pc
 
 THEOREMS = ["C02_backends_agree", "C02_ssr_text", "C02_lit_wrapper", "C02_scope_transparent", "C02_scope_chain",
-            "C02_arm_select", "C02_defaulted_agree", "C02_defaulted_literal", "C02_effective_is_walk", "C02_ranges_agree",
+            "C02_arm_select", "C02_defaulted_agree", "C02_defaulted_literal", "C02_effective_is_walk", "C02_defaulted_config", "C02_ranges_agree",
             "C02_spec"]
 THEOREMS_C01B = ["C01_codegen_view", "C01_codegen_string", "C01_tuple_order", "C01_tuple_order_eval", "C01_flatten_atoms",
                  "C01_tuple_width", "C01_either_exists", "C01_either_in_range", "C01_either_injective"]
